@@ -77,6 +77,9 @@ class InverterProtocol:
             except RuntimeError:
                 logger.debug("Failed to close transport.")
             self._transport = None
+        if self._timer:
+            self._timer.cancel()
+            self._timer = None
         # Cancel Future on connection lost
         if self.response_future and not self.response_future.done():
             self.response_future.cancel()
@@ -218,6 +221,8 @@ class UdpInverterProtocol(InverterProtocol, asyncio.DatagramProtocol):
         else:
             logger.debug("Sending: %s", self.command)
         self._transport.sendto(payload)
+        if self._timer:
+            self._timer.cancel()
         self._timer = asyncio.get_running_loop().call_later(self.timeout, self._timeout_mechanism)
 
     def _timeout_mechanism(self) -> None:
@@ -227,6 +232,7 @@ class UdpInverterProtocol(InverterProtocol, asyncio.DatagramProtocol):
         else:
             if self._timer:
                 logger.debug("Failed to receive response to %s in time (%ds).", self.command, self.timeout)
+                self._timer.cancel()
                 self._timer = None
             if self.response_future and not self.response_future.done():
                 self.response_future.cancel()
@@ -375,6 +381,8 @@ class TcpInverterProtocol(InverterProtocol, asyncio.Protocol):
         else:
             logger.debug("Sending: %s", self.command)
         self._transport.write(payload)
+        if self._timer:
+            self._timer.cancel()
         self._timer = asyncio.get_running_loop().call_later(self.timeout, self._timeout_mechanism)
 
     def _timeout_mechanism(self) -> None:
@@ -384,6 +392,7 @@ class TcpInverterProtocol(InverterProtocol, asyncio.Protocol):
         else:
             if self._timer:
                 logger.debug("Failed to receive response to %s in time (%ds).", self.command, self.timeout)
+                self._timer.cancel()
                 self._timer = None
             self._close_transport()
 
